@@ -193,7 +193,7 @@ def execute(trace):
     plans = {}
     if spec['kind'] == 'custom':
         import json
-        files['/sim/model.json'] = json.dumps(spec['spec']).encode('utf-8')
+        files['/sim/model.json'] = json.dumps(spec['spec'], ensure_ascii=False).encode('utf-8')
     stdin_bytes = b''
     if trace.get('stdin') and len(order) == 1:
         stdin_bytes = texts[order[0]].encode('utf-8')
@@ -359,8 +359,8 @@ def subprocess_crosscheck(trace, spec, argv, texts, order, stdin_bytes, r, res):
             else:
                 real.append(a)
         if spec['kind'] == 'custom':
-            with open(os.path.join(d, 'model.json'), 'w') as fh:
-                json.dump(spec['spec'], fh)
+            with open(os.path.join(d, 'model.json'), 'w', encoding='utf-8') as fh:
+                json.dump(spec['spec'], fh, ensure_ascii=False)
         for i in set(order):
             with open(os.path.join(d, f'in{i}.penman'), 'wb') as fh:
                 fh.write(texts[i].encode('utf-8'))
